@@ -6,6 +6,8 @@ import (
 	"net/http"
 	"os"
 	"path"
+
+	"github.com/pkg/errors"
 )
 
 // HTTPIndexHandler is the HTTP handler for index stores.
@@ -39,10 +41,21 @@ func (h HTTPIndexHandler) ServeHTTP(w http.ResponseWriter, r *http.Request) {
 	}
 }
 
+// indexNotFound tells an index that isn't in the upstream store from a failure to read
+// it. Local stores report the former with an error that satisfies os.IsNotExist, remote
+// ones with NoSuchObject.
+func indexNotFound(err error) bool {
+	if os.IsNotExist(err) {
+		return true
+	}
+	_, ok := errors.Cause(err).(NoSuchObject)
+	return ok
+}
+
 func (h HTTPIndexHandler) get(indexName string, w http.ResponseWriter) {
 	idx, err := h.s.GetIndex(indexName)
 	if err != nil {
-		if os.IsNotExist(err) {
+		if indexNotFound(err) {
 			w.WriteHeader(http.StatusNotFound)
 		} else {
 			w.WriteHeader(http.StatusBadRequest)
@@ -62,7 +75,11 @@ func (h HTTPIndexHandler) get(indexName string, w http.ResponseWriter) {
 func (h HTTPIndexHandler) head(indexName string, w http.ResponseWriter) {
 	r, err := h.s.GetIndexReader(indexName)
 	if err != nil {
-		w.WriteHeader(http.StatusNotFound)
+		if indexNotFound(err) {
+			w.WriteHeader(http.StatusNotFound)
+		} else {
+			w.WriteHeader(http.StatusBadRequest)
+		}
 		return
 	}
 	r.Close()
